@@ -442,6 +442,14 @@ pub fn run(thorough: bool, seed: u64, driver: &str, rep: &mut Report) {
     for _ in 0..(if thorough { 2000 } else { 200 }) {
         let n = rng.range(2, 25);
         let mut t = taxa(n);
+        // labels that READ as positions (0-based or 1-based numbers in shuffled order: a label is never a position) and a label
+        // of exactly ten characters that is a prefix of another one
+        match rng.below(6) {
+            0 => { t = (0..n).map(|i| i.to_string()).collect(); rng.shuffle(&mut t); rep.count("sequences:numeric-labels-0-based"); }
+            1 => { t = (1..=n).map(|i| i.to_string()).collect(); rng.shuffle(&mut t); rep.count("sequences:numeric-labels-1-based"); }
+            2 => { t[0] = "Drosophila".into(); t[1] = "Drosophila_melanogaster".into(); let k = rng.below(n); t.swap(0, k); rep.count("sequences:ten-character-prefix"); }
+            _ => {}
+        }
         let mut relabels = 0;
         let mut m = DistanceMatrix::new(t.clone(), &vec![0.0; tri(n)]);
         let mut table = vec![vec![0i64; n]; n];
